@@ -343,7 +343,14 @@ class Engine(
                     # apply a new Sort-only Select to 'select' itself).
                     return Select.apply_skip(select, sort=operation)
                 else:
-                    return select.reapply_skip(sort=select.sort.then(operation))
+                    merged = select.sort.then(operation)
+                    if select.is_compound and not all(
+                        isinstance(term.expression, ColumnReference) for term in merged.terms
+                    ):
+                        # ORDER BY terms of a UNION must be plain result columns;
+                        # sort by general expressions in an outer query instead.
+                        return Select.apply_skip(select.reapply_skip(sort=None), sort=merged)
+                    return select.reapply_skip(sort=merged)
             case PartialJoin(binary=binary, fixed=fixed, fixed_is_lhs=fixed_is_lhs):
                 if fixed_is_lhs:
                     return self.append_binary(binary, fixed, select)
